@@ -11,10 +11,34 @@ TECH = "contract-based deductive verification: weakest-precondition VCs generate
 
 # id -> (claimed?, level text, level note, design ref)
 CHECKS = {
+    "C01": (True,
+            "Per-operation spend contracts over the ghost tables spent/pending, proved for all inputs: Swap and MeltTokens succeed only on inputs that were neither spent nor pending before and are pairwise distinct by Y (duplicates keyed on the secret), leave them spent (swap, paid melt) or locked (pending melt); spent only grows in every operation (frame); inputs of a melt are released only on the definitive-failure answers of C05; ProofsStateCheck reports the table contents; the invariant `no Y is both pending and spent` is preserved by every operation.",
+            "Sequential histories only (interleavings are not claimed: check-then-act windows across separate transactions are outside this technique). Assumed: storage.MintDB contracts (atomic insert-if-absent of SaveProofs/AddPendingProofs; kept honest by a bounded conformance harness when present), A-META, hash_to_curve as an uninterpreted function Yof(secret).",
+            "DESIGN.md §8 C01"),
     "C02": (True,
-            "Per-operation no-inflation contracts proved for all inputs: Swap (sum of outputs + input fees <= sum of inputs, in mathematical integers, with the uint64 wrap-around of the input sum argued away), AmountChecked/OverflowAddUint64/UnderflowSubUint64 exact, TransactionFees = ceil(sum ppk/1000) as a spec function, signBlindedMessages copies amounts.",
-            "Assumed: storage.MintDB and lightning.Client contracts (trusted interfaces), library contracts in contracts/lib.gvc, induction over histories (A-META). Not decided: the Lightning ledger itself.",
+            "The four per-operation inequalities of the statement proved in mathematical integers incl. uint64 wrap-around: Swap (sum outputs + ceil(sum ppk/1000) <= sum inputs), MintTokens (sum outputs <= quote amount), MeltTokens (inputs >= amount + fee reserve + input fees at the point where inputs are locked, under the stored-row invariant), fee limit handed to SendPayment/PayPartialAmount <= stored fee reserve; internal settlement only for the mint quote of the same invoice and hence the same amount; MPP melts never internal.",
+            "Assumed: lightning.Client contracts A-LN1 (an invoice created for a sat encodes a*1000 msat and its payment hash), A-LN2 (FeeReserve pure and <= amount), A-LN3 (fresh payment hashes); storage.MintDB contracts; A-META. Not decided: the Lightning ledger itself, msat rounding of MPP.",
             "DESIGN.md §8 C02"),
+    "C03": (True,
+            "Legal transitions of a stored mint quote as a precondition of every UpdateMintQuoteState call site (UNPAID->PAID only when the backend reports settled, PAID->PENDING->ISSUED, revert to the pre-signing state); MintTokens: success implies the quote was PAID (after the poll) before and ISSUED after, outputs <= quote amount, signatures stored; an ISSUED quote is always refused; the invoice watcher re-reads the quote after its blocking wait (yield point) and only moves UNPAID to PAID.",
+            "Sequential histories plus the yield point of the invoice watcher; concurrent mint requests are not claimed. NUT-20 signature clause: see evidence (claimed only when the nut20 contracts discharge). Assumed: storage.MintDB and lightning.Client contracts, Schnorr unforgeability not decided.",
+            "DESIGN.md §8 C03"),
+    "C05": (True,
+            "Outcome table of MeltTokens and GetMeltQuoteState as postconditions over the (arbitrary) answers of the Lightning interface, recorded in ghost variables: PAID only on Succeeded (pay call, or status lookup after a failed pay call) with that preimage stored and inputs spent; UNPAID and released only on failed pay + (not-found | lookup says Failed); everything else PENDING with inputs locked; polls adopt final answers, ambiguous answers change nothing; ProofsStateCheck resolves pending quotes first; legal melt-quote transitions at every UpdateMeltQuote call site.",
+            "Assumed: lightning.Client adapters (lnd.go, cln.go) implement the interface contract; storage.MintDB contracts; scripts of several answers follow by induction over the per-call contracts (A-META).",
+            "DESIGN.md §8 C05"),
+    "C06": (True,
+            "(a) zero-annotation no-panic sweep (index, slice bounds, nil map, division, type assertion, nil dereference, explicit panic, library preconditions such as strings.Repeat count >= 0) of the mint API functions under contract, with the representation invariant as only precondition; (b) failure atomicity: an error without storage/Lightning-query fault leaves spent, pending, signatures and quote rows unchanged (Swap, MintTokens, MeltTokens), i.e. validation provably precedes mutation.",
+            "Panics inside third-party libraries are assumed away (A-LIB1). HTTP handlers are covered by C20 when claimed. Functions without contract are not swept (listed in evidence).",
+            "DESIGN.md §8 C06"),
+    "C15": (True,
+            "ProofsStateCheck: result is pointwise the ghost state in request order with the stored witness (SPENT over PENDING over UNSPENT), proved incl. the map-range resolution loop and the two IndexFunc closures; RestoreSignatures: returns exactly signed messages of the request, paired with the stored amount/id/C_/e/s; every successful Swap/MintTokens/MeltTokens stores its signatures / spent proofs.",
+            "Assumed: storage.MintDB contracts (SQL text: bounded conformance when present); slices.IndexFunc modelled natively.",
+            "DESIGN.md §8 C15"),
+    "C16": (True,
+            "TotalBalance = issued total - redeemed total (map folds proved against an order-independent sum); RequestMintQuote/RequestMeltQuote refuse amounts above the configured maxima and a balance above the maximum balance, as inequalities in mathematical integers; RetrieveMintInfo disables minting iff balance >= max balance.",
+            "A-INV16: totals below 2^63 and redeemed <= issued (sqlite cannot store larger amounts; redeemed ecash was issued). The two SQL views are assumed (store contract).",
+            "DESIGN.md §8 C16"),
 }
 
 NOT_APPLICABLE = {
